@@ -18,7 +18,7 @@ ZFLAGS = ["-Z", "stubbing", "-Z", "unstable-options", "-Z", "concrete-playback"]
 RSS_LIMIT_KB = int(os.environ.get("VERIF_CBMC_RSS_GB", "14")) * 1024 * 1024
 
 CHECK_RE = re.compile(
-    r"Check (\d+): (\S+)\n\t - Status: (\w+)\n\t - Description: \"([^\n]*)\"\n\t - Location: ([^\n]*)")
+    r"Check (\d+): ([^\n]+)\n\t - Status: (\w+)\n\t - Description: \"([^\n]*)\"\n\t - Location: ([^\n]*)")
 
 
 class HarnessResult:
@@ -127,9 +127,11 @@ def _resolve_unwindset(d, harnesses, unwindset, info):
 
 def run(harnesses, timeout_s, jobs=8, extra=None, log_path=None, playback=False, unwindset=None):
     """harnesses: list of fully qualified harness names. Returns (dict name -> HarnessResult, info)."""
-    shadow.ensure_tokio_shim()
-    d = shadow.make_shadow("kani")
     os.makedirs(shadow.CACHE, exist_ok=True)
+    with open(LOCK, "w") as lk0:
+        fcntl.flock(lk0, fcntl.LOCK_EX)
+        shadow.ensure_tokio_shim()
+        d = shadow.make_shadow("kani")
     cmd = ["cargo", "kani", "--target-dir", TARGET] + ZFLAGS
     for h in harnesses:
         cmd += ["--harness", h]
@@ -213,6 +215,7 @@ def parse_result_text(name, txt):
         return r
     for m in CHECK_RE.finditer(txt):
         _num, cname, status, desc, loc = m.groups()
+        desc = desc.strip('"')
         r.n_checks += 1
         is_cover = ".cover." in cname
         if is_cover:
